@@ -206,6 +206,24 @@ func init() {
 				if err != nil || !bytes.Equal(pw.Private, wl.Private) || !bytes.Equal(pw.Public, wl.Public) || pw.Address() != wl.Address() {
 					c.Violate("C20", "pem-roundtrip-differs", fmt.Sprintf("PEM round trip: err=%v", err), nil)
 				}
+				// a SECOND wallet saved to the same PEM location: what reads back afterwards is that wallet if the save
+				// reported success, else an error or one of the two wallets in full - never halves of both
+				{
+					wl2, _ := wallet.New()
+					serr := h.SaveToPem(&wl2)
+					pw2, rerr := h.ReadFromPem()
+					c.Rep.Evals++
+					c.Count("pem.second-save")
+					is := func(a *wallet.Wallet, b *wallet.Wallet) bool {
+						return bytes.Equal(a.Private, b.Private) && bytes.Equal(a.Public, b.Public) && a.Address() == b.Address()
+					}
+					switch {
+					case serr == nil && (rerr != nil || !is(&pw2, &wl2)):
+						c.Violate("C20", "pem-second-save-differs", fmt.Sprintf("a second wallet saved to the same PEM location (save ok) does not read back: err=%v", rerr), nil)
+					case serr != nil && rerr == nil && !is(&pw2, &wl2) && !is(&pw2, &wl):
+						c.Violate("C20", "pem-second-save-leaves-mixed-wallet", fmt.Sprintf("a second save to the same PEM location failed (%v); the location now reads back, without error, as a wallet that is neither of the two (private of one, public of the other)", serr), nil)
+					}
+				}
 			}
 		}
 		// several wallets saved at the same time (two clients of one process): each file reads back as ITS wallet
